@@ -194,7 +194,18 @@ var styles = []tcell.Style{
 	tcell.StyleDefault.Foreground(tcell.ColorNone).Background(tcell.ColorBlue),
 	tcell.StyleDefault.Background(tcell.ColorReset).Bold(true),
 	tcell.StyleDefault.Foreground(tcell.ColorNone).Background(tcell.ColorNone).Underline(true),
+	// 5..12: one base style and seven variants that each differ from it in exactly one field
+	fieldBase,
+	fieldBase.Foreground(tcell.ColorGreen),
+	fieldBase.Background(tcell.ColorGreen),
+	fieldBase.Italic(true),
+	fieldBase.Underline(tcell.UnderlineStyleDouble, tcell.ColorRed),
+	fieldBase.Underline(tcell.UnderlineStyleCurly, tcell.ColorGreen),
+	fieldBase.Url("http://v"),
+	fieldBase.UrlId("j"),
 }
+
+var fieldBase = tcell.StyleDefault.Foreground(tcell.ColorRed).Background(tcell.ColorBlue).Bold(true).Underline(tcell.UnderlineStyleCurly, tcell.ColorRed).Url("http://u").UrlId("i")
 
 type sys struct {
 	cb     tcell.CellBuffer
@@ -406,7 +417,7 @@ func scenarios() []scenario {
 	// C: styles, ColorNone merge, on 2x1
 	{
 		var ops []op
-		for si := range styles {
+		for si := range styles[:5] {
 			ops = append(ops, op{kind: "set", x: 0, r: 'a', style: si})
 			ops = append(ops, op{kind: "set", x: 1, r: 'b', style: si})
 			ops = append(ops, op{kind: "fill", r: ' ', style: si})
@@ -438,6 +449,15 @@ func scenarios() []scenario {
 		ops = append(ops, op{kind: "set", x: 0, y: 0, r: 'a', style: 1}, op{kind: "set", x: 1, y: 0, r: '世'}, op{kind: "set", x: 1, y: 1, r: 'b'},
 			op{kind: "set", x: 2, y: 0, r: 'c'}, op{kind: "cleanall"}, op{kind: "lock", x: 0, y: 0}, op{kind: "unlock", x: 0, y: 0}, op{kind: "fill", r: 'z', style: 2}, op{kind: "inval"})
 		out = append(out, scenario{"E-resize", 2, 2, ops, 4, 5})
+	}
+	// G: every style field on its own: a change of just that field must dirty the cell
+	{
+		var ops []op
+		for si := 5; si < len(styles); si++ {
+			ops = append(ops, op{kind: "set", x: 0, r: 'a', style: si})
+		}
+		ops = append(ops, op{kind: "fill", r: 'a', style: 5}, op{kind: "fill", r: 'a', style: 10}, op{kind: "cleanall"}, op{kind: "inval"})
+		out = append(out, scenario{"G-style-fields-1x1", 1, 1, ops, 3, 4})
 	}
 	// F: control / invalid runes through SetContent and Fill on 2x1
 	{
